@@ -1081,6 +1081,9 @@ class Interp:
         h = self.prims.get(name)
         if h is not None:
             return h(self, args, kw, node)
+        if name == "np.average" and args and set(kw) <= {"weights", "axis"} and "weights" in kw and kw.get("axis", NONE) == NONE:
+            # the weighted mean: sum(x * w) / sum(w) - NOT the weighted sum unless the weights sum to one
+            return T_truediv(self.dot(args[0], kw["weights"]), self.reduce("sum", kw["weights"], NONE))
         if name in ("math.prod", "np.prod") and len(args) == 1 and not kw:
             # the product of a tuple of sizes (x.shape[:3]) is the product of its entries
             a_ = args[0]
@@ -1173,6 +1176,9 @@ class Interp:
             if name in ("any", "all", "sum"):
                 return self.reduce(name, args[0], NONE)
             return ("app", "abs", (args[0],))
+        if name in ("iter", "next"):
+            # iterators are not modelled: the value is opaque (but known), so what is drawn from them is not what the rules expect
+            return ("app", "py" + name, tuple(args))
         if name == "str":
             return ("app", "str", tuple(args))
         if name == "print":
@@ -1738,7 +1744,7 @@ BUILTINS = {
     "float", "int", "len", "min", "max", "range", "tuple", "list", "zip", "isinstance", "hasattr",
     "any", "all", "sum", "abs", "str", "print", "slice", "getattr", "super", "dict", "set",
     "ValueError", "TypeError", "NotImplementedError", "FileNotFoundError", "enumerate",
-    "bool", "object", "round", "sorted", "reversed", "map", "filter", "divmod", "pow", "type", "id", "repr",
+    "bool", "object", "round", "sorted", "reversed", "map", "filter", "divmod", "pow", "type", "id", "repr", "iter", "next",
     "Exception", "RuntimeError", "KeyError", "IndexError", "AttributeError", "AssertionError", "OverflowError",
 }
 
